@@ -53,13 +53,14 @@ Qed.
 Print Assumptions all_sources_generated.
 
 (** The text of the .proto files under proto/irismod says the same as the descriptors, on the table
-    (file, package, message, field name, number, type, repeated, signer option, enum, value,
+    (file, package, message, field name, number, type, repeated, json name - the one the text
+    spells with [json_name], protoc's default [json_camel] otherwise -, signer option, enum, value,
     service, is-Msg-service, method, request, response, streaming) and on EVERY message / field /
     enum / enum-value / service / method option: the option names written in the text are
     resolved to extension numbers through the linked descriptors of gogo.proto, cosmos.proto,
     msg.proto, amino.proto, annotations.proto, descriptor.proto, their values rendered in wire form
     (message-valued options - [aggregate_opts] - by presence only). *)
-Theorem proto_sources_agree : source_rows = desc_rows aggregate_opts pulsar_files.
+Theorem proto_sources_agree : src_norm source_rows = desc_rows aggregate_opts pulsar_files.
 Proof. apply dec_eq_sound. vm_compute. reflexivity. Qed.
 Print Assumptions proto_sources_agree.
 
